@@ -43,6 +43,12 @@ def gen_case(rng, nrng):
     wk = rng.choice([None, "linear", "quadratic", "cubic", "array", "array"])
     c = {"x": [float(v) for v in x], "weights": wk, "method": rng.choice(["lsq", "wlsq"]),
          "delta": rng.choice([None, None, 1.0, round(rng.uniform(0.5, 5), 3)])}
+    if rng.random() < 0.2:
+        # data as it comes out of a logger: whole numbers, handed over as an integer array or a list of ints
+        scale = rng.choice([1, 10, 100])
+        xi = np.round(x * scale)
+        c["x"] = [float(v) for v in xi]
+        c["dtype"] = rng.choice(["int64", "int32", "list"])
     if wk == "array":
         kind = rng.randrange(3)
         w = np.random.default_rng(rng.randrange(10 ** 6)).uniform(0.2, 2.0, len(x))
@@ -55,6 +61,11 @@ def gen_case(rng, nrng):
 def fit(c, x=None, warr=None):
     from virocon import ExponentiatedWeibullDistribution as EW
     x = np.array(c["x"] if x is None else x, dtype=float)
+    dt = c.get("dtype")
+    if dt == "list":
+        x = [int(v) for v in x]
+    elif dt:
+        x = x.astype(dt)
     w = c["weights"]
     if w == "array":
         w = np.array(c["warr"] if warr is None else warr, dtype=float)
@@ -99,6 +110,8 @@ def wlsq_error(c, delta, alpha, beta):
 
 def oracle(c):
     sig = {"weights": c["weights"] if c["weights"] != "array" else "array", "delta": "fixed" if c["delta"] is not None else "free"}
+    if c.get("dtype"):
+        sig["dtype"] = c["dtype"]
     try:
         a, b, d = fit(c)
     except Exception as e:  # noqa
